@@ -101,7 +101,9 @@ def _accum(rec) -> Callable[[T], T]:
         if lr is None or lr.kind != "for" or lr.target is None or lr.iter is None:
             return t
         flag_like = step.op == "ite" and step.a[1] == const(True)
-        if lr.exits and not flag_like:
+        # (an iteration cut short by `continue` is part of `step`: the value at the continue, under its condition)
+        hard_exits = [e for e in lr.exits if e[0] != "continue"]
+        if hard_exits and not flag_like:
             return t
         prev = T("widen", (name, lid, (init,)))
         # a monotone flag:  found = I; for x in S: if c(x): found = True [; break]   ==   I or any(c(x) for x in S)
@@ -110,7 +112,7 @@ def _accum(rec) -> Callable[[T], T]:
                 and all(k == "break" and any(c == step.a[0] and p for c, p in pc) for k, pc, _, _ in lr.exits):
             anyc = T("call", (T("builtin", ("any",)), (T("comp", ("gen", step.a[0], ((rewrite(lr.target, fn), rewrite(lr.iter, fn), ()),))),), ()))
             return anyc if init == const(False) else T("bool", ("or", (init, anyc)))
-        if lr.exits:
+        if hard_exits:
             return t
         # the update may sit under conditions:  if c(x): acc.append(F(x))   ->   [F(x) for x in S if c(x)]
         conds = ()
